@@ -40,6 +40,7 @@ static __attribute__((noinline)) void stack_poison(void) {
     for (size_t i = 0; i < sizeof fill / sizeof fill[0]; i++) fill[i] = (uintptr_t) stack_marker_obj;
 }
 #define PLANT() (stack_poison(), errno = AMB[amb_n++ & 7])
+#define PLANT_ERRNO() (errno = AMB[amb_n++ & 7])     /* read-only observation loops: thousands of calls per operation */
 /* offset of the first place in [mem, mem+n) holding the marker address (any byte rotation), or -1 */
 static long addr_scan(const unsigned char *mem, size_t n) {
     unsigned char two[16]; uintptr_t a = (uintptr_t) stack_marker_obj;
@@ -164,7 +165,7 @@ static void keys_clear(keys_t *ks) { for (size_t i = 0; i < ks->n; i++) free(ks-
 static void walk_text(sb_t *b, qhasharr_t *tbl) {
     int idx = 0; qhasharr_obj_t obj;
     sb_puts(b, "w");
-    while (PLANT(), tbl->getnext(tbl, &obj, &idx)) {
+    while (PLANT_ERRNO(), tbl->getnext(tbl, &obj, &idx)) {
         sb_puts(b, " "); sb_int(b, idx - 1); sb_puts(b, ":"); sb_name(b, obj.name, obj.namesize);
         sb_puts(b, "="); sb_hex(b, obj.data, obj.datasize);
         free(obj.name); free(obj.data);
